@@ -30,6 +30,8 @@ PANIC_CALLS = ('std::rt::begin_panic', 'core::panicking::', 'std::rt::panic_fmt'
                '::step_by', '::chunks', '::windows', 'String::remove', '::rem_euclid', '::div_euclid',
                'core::unreachable', 'unreachable_display', 'slice_index', 'Index<std::ops::Range')
 
+NON_PANICKING = ('::unwrap_or', '::unwrap_or_else', '::unwrap_or_default', '::expect_none_never')
+
 # Committed precondition / justification table: signature -> (max count, reason).  A site that is neither discharged
 # by analysis nor matches an entry (within its count) is a violation.
 PRECONDITIONS = {
@@ -103,10 +105,22 @@ def _r1(ctx, oa):
     sites = 0
     discharged = 0
     skipped_derived = 0
+    # analysis units: every function in nest form (helpers unknown to the reference tree, closures handed to iterator
+    # consumers/adaptors spliced in: their panic-capable sites are judged in the context they run in); a closure that was
+    # spliced into a unit is not judged again on its own
+    units = []
+    covered = set()
     for k in reach:
         b = f.bodies[k]
         if b.derived or _generated(b, f):
             skipped_derived += 1
+            continue
+        if not b.is_closure:
+            b = oa.body if b.path == oa.body.path else f.nest_form(b, yields=False)
+            covered |= set(getattr(b, 'inlined', []))
+        units.append(b)
+    for b in units:
+        if b.is_closure and b.path in covered:
             continue
         cfg = CFG(b)
         tr = None
@@ -120,7 +134,7 @@ def _r1(ctx, oa):
                 site = ('assert', t['kind'], t)
             elif t['t'] == 'call':
                 n = callee_name(t) or ''
-                if any(p in n for p in PANIC_CALLS):
+                if any(p in n for p in PANIC_CALLS) and not n.endswith(NON_PANICKING):
                     site = ('call', n, t)
             if site is None:
                 continue
